@@ -570,8 +570,10 @@ func (ka *ecdheKeyAgreement) processServerKeyExchange(config *Config, clientHell
 
 	var sigType uint8
 	var sigHash crypto.Hash
+	var wireSigAlg SignatureScheme
 	if ka.version >= VersionTLS12 {
 		signatureAlgorithm := SignatureScheme(sig[0])<<8 | SignatureScheme(sig[1])
+		wireSigAlg = signatureAlgorithm
 		sig = sig[2:]
 		if len(sig) < 2 {
 			return errServerKeyExchange
@@ -611,6 +613,11 @@ func (ka *ecdheKeyAgreement) processServerKeyExchange(config *Config, clientHell
 		auth.valid = ka.verifyError == nil
 		auth.sh.Signature = sigType
 		auth.sh.Hash = uint8(sigHash)
+		if ka.version >= VersionTLS12 {
+			// Log the SignatureAndHashAlgorithm bytes that were on the wire
+			// (as the DHE path does), not internal constants.
+			auth.sh = SigAndHash{Signature: uint8(wireSigAlg), Hash: uint8(wireSigAlg >> 8)}
+		}
 	default:
 		break
 	}
